@@ -26,6 +26,7 @@ type hookM struct {
 	fReturned bool   // Fulfill returned
 	next      *hookM // resolution target (nil = resolved to null) once fInvoked
 	shutdown  int
+	fulfilWith *capnp.Client // the very handle this promise was fulfilled with
 	active    int // Send/Recv/Brand executing
 	sends     []int
 }
@@ -163,6 +164,13 @@ func (h *simHook) Shutdown() {
 	}
 	if m.active > 0 {
 		r.s.Fail("shutdown_during_call", "capability.go:Shutdown", fmt.Sprintf("hook H%d shut down while %d call(s) are executing in it", m.id, m.active))
+	}
+	if c := m.fulfilWith; c != nil {
+		// a promise hook that looks at the capability it was resolved to while it is shut down
+		// (the RPC layer's embargo hook releases it there): Fulfill must not hold that handle's
+		// lock while it runs the hook's Shutdown
+		_ = c.IsValid()
+		r.s.Probe("promise_hook_shutdown_touches_fulfilment_handle")
 	}
 	if m.promised && m.fInvoked {
 		return // shut down by (or after) promise resolution: legitimate
@@ -353,6 +361,7 @@ func (r *run) fulfill(ts *taskState, pr *promRec, target *handle) {
 	if target != nil {
 		c = target.c
 	}
+	m.fulfilWith = c
 	pr.p.Fulfill(c)
 	m.fReturned = true
 	s.Logf("task %d fulfill H%d returned", ts.id, m.id)
